@@ -92,7 +92,8 @@ func aliasesSource(v ssa.Value, T *types.Named, depth int) bool {
 			if isNamed(ownerOf(fa), T) && !freshBase(fa.X) {
 				return true
 			}
-			return false
+			// a field of an element/sub-object that was itself reached from the source
+			return aliasesSource(fa.X, T, depth+1)
 		}
 		if ia, ok := x.X.(*ssa.IndexAddr); ok {
 			return aliasesSource(ia.X, T, depth+1)
@@ -103,7 +104,16 @@ func aliasesSource(v ssa.Value, T *types.Named, depth int) bool {
 			}
 		}
 	case *ssa.Field:
-		return isNamed(ownerOf(x), T)
+		return isNamed(ownerOf(x), T) || aliasesSource(x.X, T, depth+1)
+	case *ssa.IndexAddr:
+		return aliasesSource(x.X, T, depth+1)
+	case *ssa.Alloc:
+		// local holding a (shallow) copy of something reached from the source
+		for _, r := range *x.Referrers() {
+			if st, ok := r.(*ssa.Store); ok && st.Addr == ssa.Value(x) && aliasesSource(st.Val, T, depth+1) {
+				return true
+			}
+		}
 	case *ssa.Slice:
 		return aliasesSource(x.X, T, depth+1)
 	case *ssa.Extract:
@@ -387,6 +397,22 @@ func (c *Ctx) covContainers(base string, f *ssa.Function, T *types.Named, exempt
 			for _, ev := range vals {
 				if isRefType(ev.Type()) && aliasesSource(ev, T, 0) {
 					aliased[fa.Field] = ap
+				}
+				// element built as a struct literal: its reference-typed fields count too
+				if u, ok := ev.(*ssa.UnOp); ok && u.Op == token.MUL {
+					if al, ok := u.X.(*ssa.Alloc); ok {
+						for _, r := range *al.Referrers() {
+							efa, ok := r.(*ssa.FieldAddr)
+							if !ok {
+								continue
+							}
+							for _, rr := range *efa.Referrers() {
+								if st, ok := rr.(*ssa.Store); ok && st.Addr == efa && isRefType(st.Val.Type()) && aliasesSource(st.Val, T, 0) {
+									aliased[fa.Field] = ap
+								}
+							}
+						}
+					}
 				}
 			}
 			if spread != nil && aliasesSource(spread, T, 0) {
